@@ -604,4 +604,15 @@ theorem gen_pool_swap (a b : PTable) : HashLink.PoolMap.swap a b = some (PTable.
   unfold HashLink.PoolMap.swap PTable.swap
   cases hb : b.endPrev <;> cases ha : a.endPrev <;> rfl
 
+/-- the hypotheses of the `…_rel` theorems are met by a non-empty represented table, and the translated `remove(iterator)`
+    does not fault on it -/
+example : ∃ (pt : PTable) (t : Table), Rel pt t ∧ t.Inv (fun _ => 7) ∧ 0 ∈ t.order ∧
+    HashLink.HashMap.removeIt (fun _ => 7) pt (.item 0) = some (pt.removeItem 0) ∧
+    (pt.items 0).cell ≠ .nextOf 0 ∧ nxtAt pt.self t.order 0 ≠ .item (pt.allocItem Kind.map).1 := by
+  obtain ⟨r, _, _, hr, _⟩ :=
+    (fresh_rel false 1 4 500).insert (fresh_inv (fun _ => 7) 1 4 500 (by decide) (by decide) (by decide)) Kind.map 0 5 50 (Nat.zero_le _)
+  have hi := ((fresh_inv (fun _ => 7) 1 4 500 (by decide) (by decide) (by decide)).insert Kind.map 0 5 50 (Nat.zero_le _)).1
+  exact ⟨r.1, _, hr, hi, by decide, gen_map_removeIt_rel hr hi 0 (by decide), hr.cell_ne_self hi 0 (by decide),
+    hr.alloc_ne_pos hi Kind.map 0⟩
+
 end Nstd.Hash.Ptr
